@@ -22,8 +22,15 @@ PyIn = UF('py.in', ObjS, ObjS, BoolS)          # PyIn(item, container)
 PyOrd = {n: UF('py.' + n.lower(), ObjS, ObjS, BoolS) for n in ('Lt', 'LtE', 'Gt', 'GtE')}
 Lower = UF('py.str.lower', ObjS, ObjS)
 Upper = UF('py.str.upper', ObjS, ObjS)
+LangMember = UF('lang.member', ObjS, ObjS, BoolS)             # item equals some element of the collection under the language's ==, and no earlier element fails
+LangMemberFails = UF('lang.member.raises', ObjS, ObjS, BoolS)  # the first element that decides is a date / non-ISO-string pair
+Elems = UF('py.elements', ObjS, z3.SeqSort(ObjS))             # the elements of a list / tuple / set value in iteration order
 ParseDate = UF('date.fromisoformat', ObjS, ObjS)
 DateOk = UF('date.fromisoformat.ok', ObjS, BoolS)
+
+
+def is_collection(v):
+    return z3.Or(is_a('list', v), is_a('tuple', v), is_a('set', v), is_a('frozenset', v))
 
 
 def link_meaning(cls, op, l, r):
@@ -34,7 +41,11 @@ def link_meaning(cls, op, l, r):
         fails = z3.Or(z3.And(c1, z3.Not(DateOk(r))), z3.And(c2, z3.Not(DateOk(l))))
         l, r = z3.If(c2, ParseDate(l), l), z3.If(c1, ParseDate(r), r)
         text_in = z3.And(is_a('str', r), is_a('str', l))
-        member = z3.If(text_in, PyIn(Upper(l), Upper(r)), PyIn(l, r))   # "netflix" in description: letter case ignored
+        # x in <list / tuple / set>: any(x == e for e in ...) with the == of the language (contract of _in_collection, proved in h_in_collection)
+        coll = z3.And(z3.Not(is_a('str', r)), is_collection(r))
+        member = z3.If(text_in, PyIn(Upper(l), Upper(r)), z3.If(coll, LangMember(l, r), PyIn(l, r)))   # "netflix" in description: letter case ignored
+        fails = z3.Or(fails, z3.And(z3.Or(is_a('In', op), is_a('NotIn', op)), z3.Not(is_a('Eq', op)), z3.Not(is_a('NotEq', op)), z3.Not(is_a('Lt', op)),
+                                    z3.Not(is_a('LtE', op)), z3.Not(is_a('Gt', op)), z3.Not(is_a('GtE', op)), coll, LangMemberFails(l, r)))
     else:
         fails = z3.BoolVal(False)
         member = z3.If(z3.And(is_a('set', r), is_a('str', l)), PyIn(Lower(l), r), PyIn(l, r))      # "Recurring" in tags: tags are lower-cased
@@ -58,6 +69,13 @@ def value_models(sp, I):
             raise PyRaise('ExpressionError', (), '_parse_date_string')
         return Obj(ParseDate(v), 'pyvalue')
     sp.models['self._parse_date_string'] = Func(m_parse)
+
+    def m_in_collection(I_, a, k, n):
+        item, coll = to_z3(a[0]), to_z3(a[1])
+        if I_.ctx.branch(LangMemberFails(item, coll), 'in_collection.raises'):
+            raise PyRaise('ExpressionError', (), '_in_collection')
+        return LangMember(item, coll)
+    sp.models['self._in_collection'] = Func(m_in_collection)
     orig_method, orig_compare = I.method, I.compare
 
     def method(o, attr, args, kwargs, node):
@@ -138,6 +156,56 @@ def h_compare(cls):
     return h
 
 
+def h_in_collection(ctx):
+    """TransactionEvaluator._in_collection(item, collection): the elements are tried in order with the == link of the language (letter case of strings
+    ignored, a date against an ISO string); the first element that is equal makes it True, the first pair that cannot be compared (a date against a
+    string that is no ISO date) before that fails; False when no element decides.  This is what `x in lst` == any(x == e for e in lst) means."""
+    cls = 'TransactionEvaluator'
+    sp, I, me = evaluator(ctx, cls)
+    value_models(sp, I)
+    del sp.models['self._in_collection']
+    q = EP + cls + '._in_collection'
+    fi = find_function(q)
+    item, coll = ctx.fresh('item', ObjS), ctx.fresh('collection', ObjS)
+    elems = Elems(coll)
+    n = z3.Length(elems)
+    eq_op = ctx.fresh('Eq', ObjS)
+    ctx.assume(is_a('Eq', eq_op))
+
+    def decides(s, k):
+        fails, holds = link_meaning(cls, eq_op, item, s[k])
+        return z3.Or(fails, holds)
+    FH = Ghost('FirstDecidingElement', [SeqObj], IntS, base=lambda s_: z3.IntVal(-1), step=lambda s_, k, acc: z3.If(acc >= 0, acc, z3.If(decides(s_, k), k, -1)))
+    fr = Frame(fi, {})
+
+    def stable(I_, env, k, it):
+        return [z3.Implies(FH(elems, k + 1) >= 0, FH(elems, n) == FH(elems, k + 1))] + FH.unfold(elems, k)
+    for nd in ast.walk(fi.node):
+        if isinstance(nd, ast.For):
+            sp.loops[(q, fr.loop_ordinals[id(nd)])] = LoopSpec(lambda I_, env, k, it: {'no_element_decided_yet': FH(elems, k) == -1},
+                                                               {'left': lambda c: Obj(c.fresh('left', ObjS), 'pyvalue'), 'right': lambda c: Obj(c.fresh('right', ObjS), 'pyvalue')},
+                                                               kind='property', unfold=lambda I_, env, k, it: FH.unfold(elems, k), exit_facts=stable)
+    for f in FH.unfold(elems, z3.IntVal(-1)):
+        ctx.assume(f)
+    W = FH(elems, n)
+    fails_W, holds_W = link_meaning(cls, eq_op, item, elems[W])
+    try:
+        r = I.call_function(fi, [Obj(item, 'pyvalue'), SymSeq([elems], None, ['pyvalue'])], {}, self_obj=me)
+    except PyRaise as e:
+        ctx.check('C04.in_collection.raises_only_expression_error', I.is_subclass(e.cls, 'ExpressionError'), 'property')
+        ctx.check('C04.in_collection.fails_iff_the_first_deciding_element_cannot_be_compared', z3.And(W >= 0, fails_W), 'property')
+        ctx.cover('in_collection.raises')
+        return
+    ctx.check('C04.in_collection.result_is_boolean', isinstance(r, bool), 'property')
+    if not isinstance(r, bool):
+        return
+    if r:
+        ctx.check('C04.in_collection.true_iff_first_deciding_element_is_equal', z3.And(W >= 0, z3.Not(fails_W), holds_W), 'property')
+    else:
+        ctx.check('C04.in_collection.false_iff_no_element_decides', W == -1, 'property')
+    ctx.cover('in_collection.returns')
+
+
 def h_lemma(ctx):
     """lemma.first_stop_stable for the compare ghost (any stop predicate): FS(k) >= 0 and m >= k => FS(m+1) = FS(k), by induction on m"""
     stopf = UF('any.stop', SeqObj, SeqObj, IntS, BoolS)
@@ -161,4 +229,4 @@ def h_lemma(ctx):
 
 def harnesses(tier):
     return [Harness('%s._eval_Compare' % cls, h_compare(cls), [EP + cls + '._eval_Compare']) for cls in ('TransactionEvaluator', 'ExpressionEvaluator')] + \
-        [Harness('lemma.first_stop.compare', h_lemma, [])]
+        [Harness('TransactionEvaluator._in_collection', h_in_collection, [EP + 'TransactionEvaluator._in_collection'], prune=True), Harness('lemma.first_stop.compare', h_lemma, [])]
